@@ -1,8 +1,10 @@
 import QtVerif.Proofs.Sessions
+import QtVerif.Proofs.SessionsDelivery
+import QtVerif.Proofs.SessionsLoss
 /-!
 C11 — Listeners get each permitted event once, in order; never one above their level.
 
-Property theorems only; helper lemmas are in `QtVerif/Proofs/Sessions.lean`, the model in
+Property theorems only; helper lemmas are in `QtVerif/Proofs/Sessions*.lean`, the model in
 `QtVerif/Model/Sessions.lean`. All theorems quantify over every history of triggers / listens / ticks,
 any number of sessions, every queue capacity `cap` and expiry factor `fac` (no bound on anything).
 -/
@@ -66,6 +68,119 @@ theorem listen_answers_if_queued (filt : Bool) (s : Sess) (r lvl timeout now : N
     (listenSess filt s r lvl timeout now).1.active.isSome →
     (listenSess filt s r lvl timeout now).1.queue = [] :=
   listenSess_answered filt s r lvl timeout now
+
+/-! ### Run level: what ONE session receives ACROSS all its responses
+
+Definitions (in `Proofs/SessionsRun.lean`, `SessionsProj.lean`, `SessionsDelivery.lean`):
+* `reqsOf sid ops` — the request ids of the `listen sid req …` ops of `ops` (this is how requests are tied
+  to sessions);
+* `responsesOf filt cap fac sid ops` — the responses of `run filt cap fac State.init ops`, in response
+  order, whose request id is in `reqsOf sid ops`;
+* `delivered filt cap fac sid ops` (= `D`) — the concatenation of their event lists;
+* `finalSess filt cap fac sid ops` — the session `sid` in the final state, `pend` its queue oldest first;
+* `trigs ops` — the events of the `.trigger` ops, in order; `SerialsIncreasing ops` — their serials `Ev.id`
+  strictly increase;
+* `ReqsSeparate sid ops` — no listen op of ANOTHER session re-uses a request id of a listen op of `sid`
+  (a request is a fresh future in the code; without this the request id does not identify the session and
+  `D` would mix sessions).
+All statements quantify over every history, every number of sessions, `cap`, `fac`. -/
+
+/-- **Conservation across responses.** Everything session `sid` is sent over the whole history, followed
+by what it still holds at the end, is a sub-list of the triggered events in trigger order: nothing
+invented, nothing repeated, nothing reordered — across responses, listens, keep-alives, expiry and
+re-creation of the session. -/
+theorem delivered_sublist_of_triggers (cap fac sid : Nat) (ops : List Op) (hsep : ReqsSeparate sid ops) :
+    (delivered true cap fac sid ops ++ pend (finalSess true cap fac sid ops)).Sublist (trigs ops) :=
+  delivered_pend_sublist true cap fac sid ops hsep
+
+/-- **(1) In trigger order and at most once, across responses.** `D` (followed by what is still
+queued) is strictly increasing in the trigger serial. -/
+theorem delivered_across_responses_in_order_once (cap fac sid : Nat) (ops : List Op)
+    (hser : SerialsIncreasing ops) (hsep : ReqsSeparate sid ops) :
+    (delivered true cap fac sid ops ++ pend (finalSess true cap fac sid ops)).Pairwise
+      (fun a b => a.id < b.id) :=
+  hser.sublist (delivered_pend_sublist true cap fac sid ops hsep)
+
+/-- hence no trigger serial occurs twice in `D` -/
+theorem delivered_exactly_once (cap fac sid : Nat) (ops : List Op)
+    (hser : SerialsIncreasing ops) (hsep : ReqsSeparate sid ops) :
+    ((delivered true cap fac sid ops).map (·.id)).Nodup :=
+  List.pairwise_map.mpr
+    (((hser.sublist (delivered_sublist true cap fac sid ops hsep))).imp (fun h => Nat.ne_of_lt h))
+
+/-- **(2) Triggered and permitted.** Every event of `D` (i) was triggered, (ii) was triggered at a moment
+when session `sid` existed with a level that permits it (the level it had when the event was queued),
+and (iii) sits in a response of `sid` whose level permits it. -/
+theorem delivered_were_triggered_and_permitted (cap fac sid : Nat) (ops : List Op)
+    (hsep : ReqsSeparate sid ops) :
+    ∀ e ∈ delivered true cap fac sid ops,
+      Op.trigger e ∈ ops ∧
+      (∃ pre post s, ops = pre ++ Op.trigger e :: post ∧
+        find sid (run true cap fac State.init pre).1.sessions = some s ∧ e.req ≤ s.level) ∧
+      (∃ r ∈ (run true cap fac State.init ops).2, r.req ∈ reqsOf sid ops ∧ e ∈ r.events ∧ e.req ≤ r.level) := by
+  intro e he
+  refine ⟨mem_trigs.mp ((delivered_sublist true cap fac sid ops hsep).subset he),
+    delivered_permitted true cap fac sid ops hsep e (List.mem_append_left _ he), ?_⟩
+  obtain ⟨r, h1, h2, h3⟩ := delivered_in_response true cap fac sid ops e he
+  exact ⟨r, h1, h2, h3, run_level_safe cap fac ops r h1 e h3⟩
+
+/-- **(3) Nothing is lost except as allowed.** Let `e` be triggered (`ops = pre ++ .trigger e :: post`)
+at a moment when session `sid` exists with a level that permits it. If `e` is in no response of `sid`
+and is not queued in `sid` at the end, then one of the following happened afterwards:
+* a later trigger `d` superseded it (`d.dup e`: same object, update class);
+* a later permitted trigger `d` pushed it out of the bounded queue while at least `cap` newer events
+  were pending (those queued just before `d`, and `d` itself);
+* a later listen call of `sid` rebound the session to a level that does not permit `e` (the repaired
+  `reset_and_wait` filters the queue; this is required by level safety);
+* a later tick expired the session.
+This lifts `lost_only_if_superseded_or_overflow` from `squash` to `run`; the last two causes do not exist
+at the level of `squash`, at run level they are real (see the examples below). -/
+theorem lost_only_if_superseded_overflow_relevelled_or_expired (cap fac sid : Nat)
+    (ops pre post : List Op) (e : Ev) (s : Sess)
+    (hser : SerialsIncreasing ops) (hsep : ReqsSeparate sid ops)
+    (hops : ops = pre ++ Op.trigger e :: post)
+    (hex : find sid (run true cap fac State.init pre).1.sessions = some s) (hperm : e.req ≤ s.level)
+    (hn : e ∉ delivered true cap fac sid ops ++ pend (finalSess true cap fac sid ops)) :
+    (∃ d, Op.trigger d ∈ post ∧ e.id < d.id ∧ d.dup e = true) ∨
+    (∃ mid d rest s', post = mid ++ Op.trigger d :: rest ∧
+        finalSess true cap fac sid (pre ++ Op.trigger e :: mid) = some s' ∧ d.req ≤ s'.level ∧ e.id < d.id ∧
+        cap ≤ (newer e (pend (finalSess true cap fac sid (pre ++ Op.trigger e :: mid)) ++ [d])).length) ∨
+    (∃ r lvl t n, Op.listen sid r lvl t n ∈ post ∧ lvl < e.req) ∨
+    (∃ mid now rest, post = mid ++ Op.tick now :: rest ∧
+        finalSess true cap fac sid (pre ++ Op.trigger e :: (mid ++ [Op.tick now])) = none) :=
+  run_lost cap fac sid ops pre post e s hser hsep hops hex hperm hn
+
+/-! Non-vacuity of the run-level statements: two sessions, session 1 listens three times (the second
+listen lowers its level), six triggers with dedup (serial 0 superseded by 1), overflow (`cap = 2`) and a
+level-filtered event; `D` of session 1 spans three responses. -/
+def demoOps : List Op :=
+  [.listen 1 100 30 5 0, .listen 2 200 30 5 0,
+   .trigger ⟨0, .portUpdate, 10, 7⟩, .tick 1,
+   .trigger ⟨1, .portUpdate, 10, 7⟩, .trigger ⟨2, .deviceUpdate, 30, 0⟩, .trigger ⟨3, .valueChange, 10, 7⟩,
+   .listen 1 101 10 5 2,
+   .trigger ⟨4, .deviceUpdate, 30, 0⟩, .trigger ⟨5, .valueChange, 10, 8⟩,
+   .listen 1 102 10 5 3, .tick 4, .listen 2 201 30 5 5]
+
+example : SerialsIncreasing demoOps := by unfold SerialsIncreasing; decide
+example : ReqsSeparate 1 demoOps := reqsSeparate_of_check (by decide)
+example : ReqsSeparate 2 demoOps := reqsSeparate_of_check (by decide)
+example : (responsesOf true 2 10 1 demoOps).map (fun r => (r.req, r.level, r.events.map (·.id)))
+    = [(100, 30, [0]), (101, 10, [3]), (102, 10, [5])] := by decide
+example : (delivered true 2 10 1 demoOps).map (·.id) = [0, 3, 5] := by decide
+example : (delivered true 2 10 2 demoOps).map (·.id) = [0, 4, 5] := by decide
+
+
+/-- the hypotheses of (3) are satisfiable: in `demoOps`, serial 1 (pushed out by overflow) and serial 2
+(dropped when listen 101 lowers the level to 10) were permitted when triggered and are never delivered
+to session 1 -/
+example : ∃ pre post s, demoOps = pre ++ Op.trigger ⟨1, .portUpdate, 10, 7⟩ :: post ∧
+    find 1 (run true 2 10 State.init pre).1.sessions = some s ∧ (10 : Nat) ≤ s.level ∧
+    (⟨1, .portUpdate, 10, 7⟩ : Ev) ∉ delivered true 2 10 1 demoOps ++ pend (finalSess true 2 10 1 demoOps) :=
+  ⟨demoOps.take 4, demoOps.drop 5, _, rfl, rfl, by decide, by decide⟩
+example : ∃ pre post s, demoOps = pre ++ Op.trigger ⟨2, .deviceUpdate, 30, 0⟩ :: post ∧
+    find 1 (run true 2 10 State.init pre).1.sessions = some s ∧ (30 : Nat) ≤ s.level ∧
+    (⟨2, .deviceUpdate, 30, 0⟩ : Ev) ∉ delivered true 2 10 1 demoOps ++ pend (finalSess true 2 10 1 demoOps) :=
+  ⟨demoOps.take 5, demoOps.drop 6, _, rfl, rfl, by decide, by decide⟩
 
 /-! Non-vacuity: a concrete history exercising dedup, overflow, level filtering and keep-alive. -/
 example :
